@@ -638,7 +638,95 @@ class Gen:
             op["inpdata"] = self.r.chance(0.7)
         if self.r.chance(0.2):
             op["twice"] = True
+        if self.cfg.get("env_faults") and self.r.chance(self.cfg["env_faults"]):
+            if kind == "save":
+                op["fault"] = self.r.pick([
+                    {"on": "disk", "kind": "open_fail", "exc": "PermissionError", "mode": "w"},
+                    {"on": "disk", "kind": "open_fail", "exc": "ENOSPC", "mode": "w"},
+                    {"on": "disk", "kind": "write_fail", "n": self.r.randint(1, 30)},
+                ])
+                op.pop("twice", None)
+            elif kind in ("make_diag", "make_hdiag"):
+                op["fname"] = self.r.pick(["d.json", "d.svg", None])
+                op["fault"] = self.r.pick([
+                    {"on": "proc", "kind": "no_dot"},
+                    {"on": "proc", "kind": "dot_exit"},
+                    {"on": "disk", "kind": "open_fail", "exc": "PermissionError", "mode": "w"},
+                ])
+                op.pop("twice", None)
         return op
+
+    def op_batt(self, m, table=None, want_fault=None):
+        """A batt_life call against a scripted battery sized for 5-60 steps."""
+        srcs = m.sources()
+        loaded = [s for s in srcs if any(m.kind(d) in LOADS for d in m.descendants(s))]
+        bat = self.r.pick(loaded or srcs)
+        if not self.r.chance(0.9):
+            bat = self.r.pick(srcs)
+        ref = bat
+        if m.rails.get(bat) and self.r.chance(0.4):
+            ref = m.rails[bat]
+        v = abs(m.comps[bat]["p"]["vo"]) or 3.7
+        phs = list(m.sys_phases.keys())
+        iest = 0.01
+        if table is not None:
+            cur = []
+            for ph in table.phases:
+                r = table.comp[ph].get(bat)
+                if r and isinstance(r["Iout (A)"], (int, float)):
+                    cur.append((ph, r["Iout (A)"]))
+            if cur:
+                iest = max(c for _, c in cur)
+                if phs:
+                    q = sum(c * m.sys_phases.get(ph, 0.0) for ph, c in cur) / 3600.0
+                else:
+                    q = None
+        kind = self.r.wpick([("linear", 3), ("stepped", 2), ("imp", 2), ("cc", 2 if phs else 0), ("early", 0.6)])
+        steps = self.r.randint(3, 40)
+        model = {"kind": kind, "v0": round(v * self.r.pick([1.0, 1.1, 0.95]), 4), "rs0": self.r.pick([0.0, 0.05, 0.1, 0.2])}
+        model["v1"] = round(model["v0"] * self.r.pick([0.6, 0.75, 0.85]), 4)
+        if kind == "imp":
+            model["rs1"] = model["rs0"] + self.r.pick([0.05, 0.1, 0.3])
+        if kind == "stepped":
+            model["steps"] = self.r.randint(2, 5)
+        cutoff = round(model["v1"] + (model["v0"] - model["v1"]) * self.r.pick([0.1, 0.5, 0.9]), 4)
+        if phs:
+            cyc = max(1, steps // len(phs))
+            qcyc = sum(m.sys_phases.values()) / 3600.0 * max(iest, 1e-6)
+            if table is not None and "q" in dir() and q:
+                qcyc = q
+            model["cap"] = float("%.6g" % (qcyc * cyc * self.r.pick([0.7, 1.0, 1.3])))
+            model["slope"] = self.r.pick([1.0, 1.0, 2.0, 0.5])
+            if kind == "cc":
+                cutoff = round(model["v0"] * 0.5, 4)
+        else:
+            model["cap"] = self.r.pick([0.05, 0.5, 2.2, 150.0])
+            model["slope"] = round(1000.0 / steps, 4)
+        if kind == "early":
+            which = self.r.pick(["empty", "below", "equal"])
+            if which == "empty":
+                model["cap"] = 0.0 if self.r.chance(0.5) else -0.1
+                model["cap"] = model["cap"] or 0.0
+            elif which == "below":
+                cutoff = round(model["v0"] * 1.2, 4)
+            else:
+                cutoff = model["v0"]
+            if model["cap"] == 0.0:
+                model["cap"] = 0.0
+        op = {"op": "batt_life", "battery": ref, "cutoff": cutoff, "model": model, "limit": 150}
+        if self.r.chance(0.3):
+            op["tags"] = {"Battery": self.r.pick(["small", "big"]), "n": 1}
+        if self.r.chance(0.5):
+            op["clock"] = self.r.pick(["mono", "stall", "back", "jump"])
+        return op
+
+    def op_batt_nonsource(self, m):
+        ns = [n for n in m.order if m.kind(n) != "Source"]
+        rails = [m.rails[n] for n in ns if m.rails.get(n)]
+        if not ns:
+            return None
+        ref = self.r.pick(ns + rails)
+        return {"op": "batt_life", "battery": ref, "cutoff": 1.0, "model": {"kind": "cc", "v0": 3.7, "v1": 3.0, "rs0": 0.1, "cap": 0.1}, "limit": 50}
 
     def diag_config(self, m):
         if self.r.chance(0.4):
